@@ -195,7 +195,7 @@ class LangGen:
                 ttc = rng.choice([None, None, TTC_EXP, TTC_SUM])
                 meta = rng.choice([{}, {}, {'mitre': 'T1' + str(rng.randrange(100, 999))}, {'user': 'info text'}])
                 new_steps.append(step(nm, typ, reaches=exprs, overrides=(kind == 'over'), ttc=ttc,
-                                      tags=rng.choice([[], [], ['tg'], ['tg', 'th']]), meta=meta))
+                                      tags=rng.choice([[], [], ['tg'], ['tg', 'th'], ['th', 'tg'], ['zz', 'mm', 'aa']]), meta=meta))
             if cfg['exist'] and rng.random() < 0.35:
                 e = self.expr(st, a, rng.randint(1, 2), allow_var=True, final=False)
                 if e is not None and 'ex' not in inherited:
